@@ -1152,3 +1152,114 @@ def rule_K7(run: Run, prog: Program) -> int:
             n += 1
             run.add("E6.K7", fn.short, key, PROVEN, "buffer dtype depends on every parameter whose data is stored", f"{fn.module.rel}:{st.lineno}")
     return n
+
+
+# ------------------------------------------------------------------------------------------------ K8
+FULL_REDUCTIONS = {"max", "min", "amax", "amin", "sum", "prod", "mean", "median", "std", "var", "ptp", "norm", "nanmax", "nanmin", "average"}
+TOLERANCE_KW = {"tol", "atol", "rtol", "tolerance", "eps"}
+COORD_ATTRS = {"array", "normalized_array"}
+
+
+def _is_full_reduction(call: ast.Call) -> ast.AST | None:
+    """the reduced expression when `call` reduces over ALL axes (no axis argument), else None"""
+    f = call.func
+    name = f.attr if isinstance(f, ast.Attribute) else getattr(f, "id", "")
+    if name not in FULL_REDUCTIONS:
+        return None
+    for k in call.keywords:
+        if k.arg == "axis" and not (isinstance(k.value, ast.Constant) and k.value.value is None):
+            return None
+    if isinstance(f, ast.Attribute) and isinstance(f.value, ast.Name) and f.value.id in ("np", "numpy") or (
+            isinstance(f, ast.Attribute) and isinstance(f.value, ast.Attribute) and f.value.attr == "linalg"):
+        if len(call.args) >= 2:
+            return None  # positional axis
+        return call.args[0] if call.args else None
+    if isinstance(f, ast.Attribute) and not call.args:
+        return f.value  # x.max()
+    return None
+
+
+def rule_K8(run: Run, prog: Program, only: set | None = None) -> int:
+    run.rule(
+        "E6.K8",
+        "element-wise decisions: a tolerance (tol=/atol=/rtol= of a comparison helper) handed to a test over a collection does not depend on a "
+        "reduction over ALL axes of coordinate data - such a value couples the positions of a collection, so whether element i counts as "
+        "zero / equal / at infinity depends on what is stored at element j, and a collection no longer answers what its single objects answer",
+    )
+    tensor = prog.cls("Tensor")
+    coll = prog.find_cls("TensorCollection")
+    n = 0
+    for fn in prog.package_functions():
+        if only is not None and fn.qualname not in only:
+            continue
+        # can a collection reach this code?
+        if fn.cls is not None:
+            if not prog.is_subclass(fn.cls, tensor):
+                continue
+            if coll is not None and not any(prog.is_subclass(c, coll) for c in prog.subclasses(fn.cls)):
+                continue  # a kind without a collection class (single objects only)
+        else:
+            anns = [p.annotation for p in fn.params() if p.annotation is not None]
+            va = fn.node.args.vararg
+            if va is not None and va.annotation is not None:
+                anns.append(va.annotation)
+            if not any(ks and any(prog.is_subclass(k, tensor) for k in ks) for ks in (prog.annotation_classes(fn.module, a) for a in anns)):
+                continue
+        nd_params = {p.arg for p in fn.params() if p.annotation is not None and "ndarray" in ast.unparse(p.annotation)}
+
+        def coord_data(e: ast.AST) -> bool:
+            return any(isinstance(x, ast.Attribute) and x.attr in COORD_ATTRS for x in ast.walk(e)) or any(
+                isinstance(x, ast.Name) and x.id in nd_params for x in ast.walk(e))
+
+        # names whose value depends on a full reduction of coordinate data
+        tainted: dict[str, ast.AST] = {}
+        changed = True
+        assigns = [st for st in walk_no_nested(fn.node) if isinstance(st, ast.Assign) and len(st.targets) == 1 and isinstance(st.targets[0], ast.Name)]
+
+        def reduction_in(e: ast.AST) -> ast.Call | None:
+            for x in ast.walk(e):
+                if isinstance(x, ast.Call):
+                    red = _is_full_reduction(x)
+                    if red is not None and coord_data(red):
+                        return x
+            return None
+
+        while changed:
+            changed = False
+            for st in assigns:
+                nm = st.targets[0].id
+                if nm in tainted:
+                    continue
+                r = reduction_in(st.value)
+                if r is not None:
+                    tainted[nm] = r
+                    changed = True
+                    continue
+                for x in ast.walk(st.value):
+                    if isinstance(x, ast.Name) and x.id in tainted:
+                        tainted[nm] = tainted[x.id]
+                        changed = True
+                        break
+        for call in walk_no_nested(fn.node):
+            if not isinstance(call, ast.Call):
+                continue
+            for k in call.keywords:
+                if k.arg not in TOLERANCE_KW:
+                    continue
+                n += 1
+                src = reduction_in(k.value)
+                if src is None:
+                    for x in ast.walk(k.value):
+                        if isinstance(x, ast.Name) and x.id in tainted:
+                            src = tainted[x.id]
+                            break
+                loc = f"{fn.module.rel}:{call.lineno}"
+                label = f"{ast.unparse(call.func)[:30]}({k.arg}={ast.unparse(k.value)[:40]})"
+                if src is None:
+                    run.add("E6.K8", fn.short, label, PROVEN, "the tolerance does not depend on a whole-array reduction of coordinates", loc)
+                else:
+                    run.add("E6.K8", fn.short, label, VIOLATION,
+                            f"the tolerance `{k.arg}={ast.unparse(k.value)[:50]}` depends on `{ast.unparse(src)[:60]}`, a reduction over ALL axes - for a "
+                            f"collection that is the extreme over every element, so one large (or small) element changes the verdict for all the others; "
+                            f"the same objects give a different answer one by one (reduce with axis= over the coordinate axes only)", loc)
+    return n
